@@ -42,6 +42,14 @@ func deepCopy(m copyMode, t types.Type, v value, depth int) value {
 	}
 	switch tt := t.(type) {
 	case *types.Named:
+		// bitxhub-kit Hash / Address: only the raw bytes are encoded; the cached string
+		// rendering (field 1) is not part of the document
+		if ts := tt.String(); ts == "github.com/meshplus/bitxhub-kit/types.Hash" || ts == "github.com/meshplus/bitxhub-kit/types.Address" {
+			if x, ok := v.(structure); ok && len(x) == 2 {
+				st := tt.Underlying().(*types.Struct)
+				return structure{deepCopy(copyMode{"plain"}, st.Field(0).Type(), x[0], depth+1), ""}
+			}
+		}
 		if m.codec == "json" && (hasMethod(tt, "MarshalJSON") || hasMethod(tt, "MarshalText")) {
 			return deepCopy(copyMode{"plain"}, tt.Underlying(), v, depth+1)
 		}
